@@ -109,6 +109,14 @@ class DatesWorld(World):
         kinds = list(OP_WEIGHTS)
         disabled = [k for k in kinds if k not in ("new_period", "new_span") and rng.random() < 0.2]
         weights = {k: (0 if k in disabled else OP_WEIGHTS[k] * rng.choice([1, 1, 2, 3])) for k in kinds}
+        if rng.random() < 0.08:
+            # calendar walk: one long history p, p+1, p+2, ... through consecutive periods (several years, across
+            # leap days, year and century boundaries), every visited period checked against the independent calendar
+            f = rng.choice(["Y", "H", "Q", "M", "D", "D"])
+            year = rng.choice([1899, 1999, 2019, 2023, 2099, 2399, rng.randint(1601, 2400)])
+            return {"world": cls.NAME, "mode": "walk", "freqs": [f], "spans": 2, "periods": 4, "actors": 1,
+                    "steps": 420 if tier == "quick" else 1500, "year_focus": [year], "p_contextual": 0.0, "weights": weights,
+                    "walk": {"f": f, "start_year": year, "stride": rng.choice([1, 1, 1, 2, 7]) if f == "D" else 1}}
         return {
             "world": cls.NAME, "freqs": freqs, "spans": rng.randint(2, 6) if tier == "quick" else rng.randint(2, 9),
             "periods": rng.randint(2, 8) if tier == "quick" else rng.randint(2, 12),
@@ -189,9 +197,39 @@ class DatesWorld(World):
         v = cal.FREQ_VALUE[f]
         return y * v + rng.choice([0, v - 1, rng.randrange(v)]) + rng.choice([0, 0, -1, 1])
 
+    def _gen_walk(self, rng):
+        w = self.cfg["walk"]
+        f = w["f"]
+        stt = getattr(self, "_walk", None)
+        if stt is None:
+            start = cal.serial_from_year_segment(f, w["start_year"], 1) + (rng.randint(300, 360) if f == "D" else 0)
+            self._walk = stt = {"h": None, "phase": 0}
+            step = {"op": "new_period", "out": [self._name("p")], "args": {"f": f, "serial": start}}
+            stt["h"] = step["out"][0]
+            return step
+        if stt["phase"] == 0:
+            stt["phase"] = 1
+            return {"op": "p_calendar", "args": {"p": stt["h"]}}
+        if stt["phase"] == 1:
+            stt["phase"] = 2
+            return {"op": "p_keyword", "args": {"p": stt["h"], "kw": rng.choice(["yoy", "soy", "eopy", "tty"]), "k": 1}}
+        # advance: the successor joins, the old one is dropped (keeps the population at one walker)
+        if stt["phase"] == 2:
+            stt["phase"] = 3
+            step = {"op": "p_derive", "out": [self._name("p")], "args": {"p": stt["h"], "how": rng.choice(["add", "radd", "shift"]), "n": w["stride"]}}
+            stt["old"], stt["h"] = stt["h"], step["out"][0]
+            return step
+        stt["phase"] = 0
+        self.probes["calendar_walk_steps"] += 1
+        return {"op": "drop", "args": {"p": stt["old"]}}
+
     def gen_step(self, st):
         rng, sched = st.get("ops"), st.get("sched")
         cfg = self.cfg
+        if cfg.get("mode") == "walk":
+            step = self._gen_walk(rng)
+            step["actor"] = "a0"
+            return step
         actor = f"a{sched.randrange(cfg['actors'])}"
         if len(self.spans) < 2:
             step = self._gen_new_span(actor, rng)
